@@ -190,7 +190,10 @@ def s_reject(draw):
     if draw(st.integers(0, 3)) == 0:
         lin = min(math.hypot(base["affine"][0], base["affine"][3]), math.hypot(base["affine"][1], base["affine"][4]))
         fine_q = max(0, round(math.log2(lin / draw(st.sampled_from([1e-5, 1e-6, 3e-7])))))
-    return {"base": base, "crs": draw(crs_tags()), "members": m, "perturb": k, "axis": axis, "sign": sign, "fine_q": fine_q}
+    # a legal empty (zero-width / zero-height) second operand: holds no pixel, is still on a grid of its own, and the
+    # operations have to look at that grid (round 8, C16-21)
+    empty_b = draw(st.sampled_from([None, None, None, "x", "y", "xy"]))
+    return {"base": base, "crs": draw(crs_tags()), "members": m, "perturb": k, "axis": axis, "sign": sign, "fine_q": fine_q, "empty_b": empty_b}
 
 
 def o_reject(case, T):
@@ -208,6 +211,10 @@ def o_reject(case, T):
     kind, amount, accept = PERTURB[case["perturb"]]
     amount = amount * case["sign"] if kind in ("offset",) else amount
     x0, y0, nx, ny = mb
+    empty_b = case.get("empty_b")
+    if empty_b:
+        nx, ny = (0 if "x" in empty_b else nx), (0 if "y" in empty_b else ny)
+        T.cls("empty_operand")
     if kind == "offset":
         dx = amount if "x" in case["axis"] else 0.0
         dy = amount if "y" in case["axis"] else 0.0
@@ -243,7 +250,7 @@ def o_reject(case, T):
             require(not accept, "%s rejected grids that differ by a %s of %r px only (below tolerance)", name, kind, amount)
             continue
         require(accept, "%s accepted grids related by %s=%r (axis %s): returned %r", name, kind, amount, case["axis"], r)
-    if accept:
+    if accept and not empty_b:
         # tiny offsets are treated as the same grid: result must be the integer-rectangle answer
         ra = (ma[0], ma[1], ma[0] + ma[2], ma[1] + ma[3])
         rb = (mb[0], mb[1], mb[0] + mb[2], mb[1] + mb[3])
